@@ -61,6 +61,32 @@ CLAIMS = {
          "by scale. Partial: for a unit with NEGATIVE scale the statement is false of the code (known finding D6, negation proved). "
          "Correspondence: equal-by-construction amounts across units, zero/negative equal amounts, near-ties, Decimal vs Fraction.",
          "6 C04", NOTE),
+ "C02": ("Lean 4 proof (soundness of unit resolution and of products/quotients under every admissible valuation; error characterisation) + differential correspondence with a value-based oracle",
+         "Theorems (Props/C02.lean, Proofs/UnitOps.lean): under the directory invariant (entries keyed by the unit's normalised definition) "
+         "and for EVERY admissible valuation of the units, unit*unit and unit/unit return (f, w) with f*w worth exactly the product/quotient "
+         "(w = None: dimensions cancel, f is the exact plain number) — dimension and scale in one statement; any resolved unit term has "
+         "exactly the value of the term; the only possible error of unit*unit is UndefinedResultError and it occurs iff the directory has "
+         "no unit for the normalised result term (with or without its numeric factor); quantity*quantity constructs once with a*b*f; number "
+         "operands scale the amount and keep unit/type; same-type division is the plain ratio. Correspondence: predefined catalogue "
+         "(thorough: all 113x113 ordered pairs x {*,/}) and user histories, all operand kinds. Partial: completeness for reference-less "
+         "types whose declared unit carries a numeric factor (known finding D2) is not claimed.",
+         "6 C02", NOTE),
+ "C05": ("Lean 4 proof (constructor = single rounding to the grid; bounds from the proved rounding spec) + differential correspondence under all 8 default modes",
+         "Theorems (Props/C05.lean): the constructor stores roundQ(mode, a/quantum)*quantum; that is on the grid, < 1 quantum from the exact "
+         "amount, <= 1/2 quantum under half modes, never above under FLOOR / below under CEILING; on-grid amounts are fixed points (no "
+         "second rounding), the grid is closed under +; unit quantum = class quantum / scale, currency quantum = smallest fraction; scaling "
+         "rounds once. Correspondence: every DataVolume unit and user types with quanta 1/8, 1/100, 1/3, 5/8 under all 8 default modes for "
+         "constructor, + - neg abs, * / by number, conversion, products landing in a quantised type; oracle = independent Fraction rounding "
+         "of the exact result on the stored operands. Money under exchange rates is covered by C10.",
+         "6 C05", NOTE),
+ "C17": ("Lean 4 proof (cache invariant: every cached entry has the value of its operation; hits, repeats, failures not cached; value independent of the state) + differential correspondence on two declaration orders in two processes",
+         "Theorems (Props/C17.lean): the operation cache only ever holds sound entries (preserved by * and /); a repeated operation returns "
+         "the identical result; a failed operation leaves the state (cache) untouched so it is recomputed after later declarations; for any "
+         "two states reached by any histories, successful results of the same operation have the same value under every valuation "
+         "admissible in both. Correspondence: same declaration set in two dependency-respecting orders in two forked processes with "
+         "different operation schedules, operations targeted BEFORE their result type exists, repeats, common final block; checked by "
+         "value against the history-independent expectation.",
+         "6 C17", NOTE),
 }
 
 def main():
